@@ -70,6 +70,15 @@ struct Derived : Base {   // base class via BaseObject + a conditional member + 
 		a << KeyValue("origin", origin);
 	}
 };
+struct Base2 { int64_t tag = 0; template <class A> void Serialize(A& a) { a << KeyValue("tag", tag); } };
+struct DerivedLate : Base {   // own members before and after the base class (field counting must not depend on where BaseObject stands)
+	int first = 0; std::string last;
+	template <class A> void Serialize(A& a) { a << KeyValue("first", first) << BaseObject<Base>(*this) << KeyValue("last", last); }
+};
+struct TwoBases : Base, Base2 {   // two base classes
+	bool flag = false;
+	template <class A> void Serialize(A& a) { a << BaseObject<Base>(*this) << BaseObject<Base2>(*this) << KeyValue("flag", flag); }
+};
 struct External { int64_t id = 0; std::u16string label; };   // serialized by a global SerializeObject
 template <class A> void SerializeObject(A& a, External& v) { a << KeyValue("id", v.id) << KeyValue("label", v.label); }
 
@@ -202,6 +211,8 @@ template <class T> struct G<std::queue<T>> { static std::queue<T> make(vf::Src& 
 template <class T> struct G<std::stack<T>> { static std::stack<T> make(vf::Src& s, const GenCtx& g) { std::stack<T> q; size_t n = gen_count<T>(s, g); for (size_t i = 0; i < n; i++) q.push(gen<T>(s, g)); return q; } };
 template <class T> struct G<std::priority_queue<T>> { static std::priority_queue<T> make(vf::Src& s, const GenCtx& g) { std::priority_queue<T> q; size_t n = gen_count<T>(s, g); for (size_t i = 0; i < n; i++) q.push(gen<T>(s, g)); return q; } };
 template <> struct G<Base> { static Base make(vf::Src& s, const GenCtx& g) { Base b; b.baseId = s.integer<int>(); b.baseName = gen<std::string>(s, g); return b; } };
+template <> struct G<DerivedLate> { static DerivedLate make(vf::Src& s, const GenCtx& g) { DerivedLate d; static_cast<Base&>(d) = gen<Base>(s, g); d.first = s.integer<int>(); d.last = gen<std::string>(s, g); return d; } };
+template <> struct G<TwoBases> { static TwoBases make(vf::Src& s, const GenCtx& g) { TwoBases d; static_cast<Base&>(d) = gen<Base>(s, g); d.tag = s.integer<int64_t>(); d.flag = s.coin(); return d; } };
 template <> struct G<Derived> { static Derived make(vf::Src& s, const GenCtx& g) { Derived d; static_cast<Base&>(d) = gen<Base>(s, g); d.ratio = gen<double>(s, g); d.items = gen<std::vector<int>>(s, g); d.hasExtra = s.coin(); d.extra = d.hasExtra ? s.integer<int>() : 0; d.origin = gen<Pt>(s, g); return d; } };
 
 // ---- deep equality ----------------------------------------------------------------------------------------------------------
@@ -228,6 +239,8 @@ template <class T> struct E<std::queue<T>> { static bool eq(std::queue<T> a, std
 template <class T> struct E<std::stack<T>> { static bool eq(std::stack<T> a, std::stack<T> b) { while (!a.empty() && !b.empty()) { if (!mdl::eq(a.top(), b.top())) return false; a.pop(); b.pop(); } return a.empty() && b.empty(); } };
 template <class T> struct E<std::priority_queue<T>> { static bool eq(std::priority_queue<T> a, std::priority_queue<T> b) { while (!a.empty() && !b.empty()) { if (!mdl::eq(a.top(), b.top())) return false; a.pop(); b.pop(); } return a.empty() && b.empty(); } };
 template <> struct E<Base> { static bool eq(const Base& a, const Base& b) { return a.baseId == b.baseId && a.baseName == b.baseName; } };
+template <> struct E<DerivedLate> { static bool eq(const DerivedLate& a, const DerivedLate& b) { return E<Base>::eq(a, b) && a.first == b.first && a.last == b.last; } };
+template <> struct E<TwoBases> { static bool eq(const TwoBases& a, const TwoBases& b) { return E<Base>::eq(a, b) && a.tag == b.tag && a.flag == b.flag; } };
 template <> struct E<Derived> { static bool eq(const Derived& a, const Derived& b) { return E<Base>::eq(a, b) && mdl::eq(a.ratio, b.ratio) && a.items == b.items && a.hasExtra == b.hasExtra && a.extra == b.extra && a.origin == b.origin; } };
 template <> struct E<External> { static bool eq(const External& a, const External& b) { return a.id == b.id && a.label == b.label; } };
 }
@@ -249,6 +262,8 @@ template <> struct Sh<Color> { static std::string show(const Color& v) { return 
 template <> struct Sh<Pt> { static std::string show(const Pt& v) { return vf::cat("Pt(", v.x, ",", v.y, ")"); } };
 template <> struct Sh<External> { static std::string show(const External& v) { return vf::cat("Ext(", v.id, ",", mdl::show(v.label), ")"); } };
 template <> struct Sh<Base> { static std::string show(const Base& v) { return vf::cat("Base(", v.baseId, ",", bytes_show(v.baseName), ")"); } };
+template <> struct Sh<DerivedLate> { static std::string show(const DerivedLate& v) { return vf::cat("DerivedLate(", v.first, ",", v.baseId, ",", bytes_show(v.baseName), ",", bytes_show(v.last), ")"); } };
+template <> struct Sh<TwoBases> { static std::string show(const TwoBases& v) { return vf::cat("TwoBases(", v.baseId, ",", bytes_show(v.baseName), ",", v.tag, ",", v.flag, ")"); } };
 template <> struct Sh<Derived> { static std::string show(const Derived& v) { return vf::cat("Derived(", v.baseId, ",", bytes_show(v.baseName), ",", v.ratio, ",n=", v.items.size(), ",", v.hasExtra, ",", v.extra, ",", v.origin.x, ")"); } };
 template <class R, class P> struct Sh<std::chrono::duration<R, P>> { static std::string show(const std::chrono::duration<R, P>& v) { return vf::cat("dur<", P::num, "/", P::den, ">(", v.count(), ")"); } };
 template <class D> struct Sh<std::chrono::time_point<std::chrono::system_clock, D>> { static std::string show(const std::chrono::time_point<std::chrono::system_clock, D>& v) { return vf::cat("tp<", D::period::num, "/", D::period::den, ">(", v.time_since_epoch().count(), ")"); } };
@@ -300,6 +315,8 @@ template <class... Ts> struct F<std::tuple<Ts...>> { static void f(const std::tu
 template <class T> struct F<std::optional<T>> { static void f(const std::optional<T>& v, Features& x, int d) { if (!v) x.null = true; else mdl::features(*v, x, d); } };
 template <class T> struct F<std::unique_ptr<T>> { static void f(const std::unique_ptr<T>& v, Features& x, int d) { if (!v) x.null = true; else mdl::features(*v, x, d); } };
 template <class T> struct F<std::shared_ptr<T>> { static void f(const std::shared_ptr<T>& v, Features& x, int d) { if (!v) x.null = true; else mdl::features(*v, x, d); } };
+template <> struct F<DerivedLate> { static void f(const DerivedLate& v, Features& x, int d) { x.nested = true; mdl::features(v.baseName, x, d + 1); mdl::features(v.last, x, d + 1); } };
+template <> struct F<TwoBases> { static void f(const TwoBases& v, Features& x, int d) { x.nested = true; mdl::features(v.baseName, x, d + 1); } };
 template <> struct F<Derived> { static void f(const Derived& v, Features& x, int d) { x.nested = true; mdl::features(v.baseName, x, d + 1); mdl::features(v.ratio, x, d + 1); mdl::features(v.items, x, d + 1); } };
 template <> struct F<External> { static void f(const External& v, Features& x, int d) { mdl::features(v.label, x, d + 1); mdl::features(v.id, x, d + 1); } };
 }
